@@ -134,7 +134,8 @@ func arrayGetReverse(ar *Array) (r.Element, error) {
 	var result []r.Element
 	l := len(ar.value)
 	for i := 0; i < l; i++ {
-		result = append(result, ar.value[l-1-i])
+		// (the new list has items of its own, as 合并 and the copies made on assignment do)
+		result = append(result, DuplicateValue(ar.value[l-1-i]))
 	}
 
 	return NewArray(result), nil
